@@ -3,8 +3,10 @@
 // mathematically correct value for the type width.
 //
 // (S)+(G): spec/LiteralsInt.tla enumerates (width, value, notation) -- all
-// values of i1..i8 (thorough: ..i10) in every notation, boundary values of wide
-// types, two-digit hexadecimal patterns -- checks the reference denotation
+// values of i1..i8 (thorough: ..i10) in every notation, all values of i9..i12
+// (thorough: i11..i14) in the hexadecimal notations, boundary values of wide
+// types (widths that are not a multiple of 4 included), two-digit hexadecimal
+// patterns -- checks the reference denotation
 // Literals!IntDenote on each and emits one vector per case; every vector is fed
 // to constant.NewIntFromString and to asm.ParseString("@g = global iW LIT"), the
 // parsed constant is printed (Int.Ident and Module.String) and the printed
@@ -158,6 +160,7 @@ type checker struct {
 	seenRow        map[string]bool
 	printed        map[string]int // notation chosen by the printer -> count
 	parseErr       int
+	modular        int // round trips that preserve the value of the type but not the integer X
 	choiceExamples []string
 }
 
@@ -287,6 +290,10 @@ func (c *checker) roundTrip(w int, x *big.Int, origin string) (*big.Int, string,
 			Case: map[string]interface{}{"kind": "print", "w": w, "x": x.Text(16), "origin": origin}})
 		return x, printed, false
 	}
+	if x.Cmp(x2) != 0 {
+		// the printer chose another representative of the same value of the type (i1 -1 is printed "true")
+		c.modular++
+	}
 	return x, printed, true
 }
 
@@ -315,7 +322,7 @@ func (c *checker) judge(label string) {
 			mbt.Infra("LiteralsIntTrace: unexpected violation %s", v)
 		}
 	}
-	skipped, exact, choice, bad := 0, 0, 0, 0
+	skipped, choice, bad := 0, 0, 0
 	for _, m := range reRow.FindAllStringSubmatch(t.Output, -1) {
 		i, _ := strconv.Atoi(m[3])
 		r := c.rows[i-1]
@@ -324,8 +331,6 @@ func (c *checker) judge(label string) {
 			switch m[2] {
 			case "skipped":
 				skipped++
-			case "parse-exact":
-				exact++
 			case "print-choice":
 				choice++
 				if choice <= 3 {
@@ -364,7 +369,6 @@ func (c *checker) judge(label string) {
 	}
 	add("rows_judged_by_tlc", len(c.rows)-skipped)
 	add("rows_with_decimal_too_long_for_tlc", skipped)
-	add("rows_value_equal_only_modulo_2^w", exact)
 	add("print_choice_differs_from_model", choice)
 	c.rows = nil
 }
@@ -422,7 +426,8 @@ func Run(tier, replay string) {
 	consts := map[string]string{}
 	if tier == "thorough" {
 		consts["SmallWidths"] = "{1, 2, 3, 4, 5, 6, 7, 8, 9, 10}"
-		consts["BigWidths"] = "{15, 16, 17, 31, 32, 33, 63, 64, 65, 127, 128, 129, 256, 1023, 1024, 2048}"
+		consts["HexWidths"] = "{11, 12, 13, 14}"
+		consts["BigWidths"] = "{15, 16, 17, 18, 19, 23, 29, 31, 32, 33, 47, 63, 64, 65, 66, 127, 128, 129, 255, 256, 257, 1023, 1024, 1025, 2048}"
 		consts["Exps"] = "{0, 1, 2, 3, 4, 5, 6, 7, 8, 11, 12, 13, 14, 15, 16, 17, 30, 31, 32, 33, 47, 48, 62, 63, 64, 65, 66, 126, 127, 128, 129, 255, 256, 511, 512, 1000, 1022, 1023, 2000}"
 		consts["HexA"] = "{1, 2, 7, 8, 9, 10, 15}"
 		consts["HexB"] = "{0, 1, 7, 8, 9, 12, 15}"
@@ -456,10 +461,15 @@ func Run(tier, replay string) {
 		if got == nil {
 			continue
 		}
-		// the outcome the spec requires: the pattern at width w (and the integer itself)
+		// the outcome the spec requires: exactly the integer the notation denotes (and hence its
+		// pattern at width w); a reading that agrees only modulo 2^w (31 for i5 s0x1F) is wrong too
 		if !inRange(v.W, got) || !samePattern(v.W, got, want) || !samePattern(v.W, got, fromLimbs(false, v.Pat)) {
 			rep.Fail(mbt.Failure{Signature: "C09|parse|" + notation(lit) + "|" + widthClass(v.W) + "|parse-value",
 				What: fmt.Sprintf("i%d %s must denote %s (vector of LiteralsInt.tla, notation %s); the parser read %s", v.W, mbt.Truncate(lit, 80), want.String(), v.Tag, got.String()),
+				Case: map[string]interface{}{"kind": "parse", "w": v.W, "lit": lit, "origin": "vector/" + v.Tag}})
+		} else if got.Cmp(want) != 0 {
+			rep.Fail(mbt.Failure{Signature: "C09|parse|" + notation(lit) + "|" + widthClass(v.W) + "|parse-exact",
+				What: fmt.Sprintf("i%d %s must denote %s (vector of LiteralsInt.tla, notation %s); the parser read %s, which agrees only modulo 2^%d", v.W, mbt.Truncate(lit, 80), want.String(), v.Tag, got.String(), v.W),
 				Case: map[string]interface{}{"kind": "parse", "w": v.W, "lit": lit, "origin": "vector/" + v.Tag}})
 		}
 		if len(rep.Samples) < 4 && (v.W == 8 && v.Tag == "s0x-short" && lit == "s0x7F" || v.W == 8 && lit == "s0xFF" || v.W == 65 && v.Neg && v.Tag == "s0x" && len(v.Mag) == 5 || v.W == 64 && lit == "u0x8000000000000000") {
@@ -502,6 +512,7 @@ func Run(tier, replay string) {
 	c.judge("random")
 
 	rep.Extra["printer_notation_counts"] = c.printed
+	rep.Extra["roundtrips_equal_only_modulo_2^w"] = c.modular
 	if len(c.choiceExamples) > 0 {
 		rep.Note("the printer's decimal/hexadecimal choice differs from the exact-rational model of its heuristic (float64 ties; never part of a verdict), e.g. %s", strings.Join(c.choiceExamples, "; "))
 	}
